@@ -19,12 +19,17 @@ Cfg(n, cap, b, e, h, stop, sep, ac, acl, ah, me) == CfgX(n, cap, b, e, h, stop, 
 CfgsNoStop == { Cfg(n, cap, b, e, h, TRUE, TRUE, FALSE, FALSE, FALSE, 0) :
                  n \in {1, 2, 3}, cap \in {0, 1, 2}, b \in {B3, BBad, BType, BBad1}, e \in {"eof", "trunc"}, h \in {"ok", "none"} }
               \cup { Cfg(n, 1, B3, "eof", h, TRUE, TRUE, FALSE, FALSE, TRUE, 0) : n \in {1, 2}, h \in {"trunc", "feature", "empty"} }
-CfgsNoStopBig == { Cfg(n, cap, b, e, "ok", TRUE, TRUE, FALSE, FALSE, FALSE, 0) :
-                 n \in {3, 4}, cap \in {0, 1, 3}, b \in {B4, B5}, e \in {"eof", "trunc"} }
+B6 == <<D(1), D(1), D(0), D(2), D(1), D(1)>>
+BBadMid == <<D(1), D(1), BAD, D(1), D(1)>>
+BTypeMid == <<D(1), D(2), TYP, D(1)>>
+CfgsNoStopBig == { Cfg(n, cap, b, e, h, TRUE, TRUE, FALSE, FALSE, FALSE, 0) :
+                 n \in {2, 3, 4}, cap \in {0, 1, 2, 3}, b \in {B4, B5, B6, BBadMid, BTypeMid}, e \in {"eof", "trunc"}, h \in {"ok", "none"} }
 \* Close and external cancel at every point, incl. liveness
 CfgsStop == { Cfg(n, cap, b, "eof", h, TRUE, TRUE, ac, ~ac, FALSE, 0) : n \in {1, 2}, cap \in {0, 1}, b \in {B3}, h \in {"ok", "none"}, ac \in BOOLEAN }
 CfgsStopQ == { Cfg(n, cap, B3, "eof", "ok", TRUE, TRUE, ac, ~ac, FALSE, 0) : n \in {1, 2}, cap \in {0, 1}, ac \in BOOLEAN }
-CfgsStopBig == { Cfg(n, cap, b, e, "ok", TRUE, TRUE, ac, ~ac, FALSE, 0) : n \in {2, 3}, cap \in {0, 1}, b \in {B3, B4, BBad}, e \in {"eof", "trunc"}, ac \in BOOLEAN }
+CfgsStopBig == { Cfg(n, cap, b, e, h, TRUE, TRUE, ac, ~ac, FALSE, 0) : n \in {2, 3}, cap \in {0, 1, 2}, b \in {B3, B4, BBad, BType}, e \in {"eof", "trunc"}, h \in {"ok", "none"}, ac \in BOOLEAN }
+\* Close and cancel both allowed in one run, Header() calls, header failures
+CfgsStopBoth == { Cfg(n, 1, b, "eof", h, TRUE, TRUE, TRUE, TRUE, TRUE, 0) : n \in {1, 2}, b \in {B3, BBad1}, h \in {"ok", "none", "trunc", "feature", "empty"} }
 \* history Judge against the Model (no VIEW: hist is part of the state)
 CfgsHist == { Cfg(2, 1, b, "eof", "ok", TRUE, TRUE, ac, ~ac, FALSE, 1) : b \in {<<D(1), D(0), D(1)>>, <<D(1), BAD>>}, ac \in BOOLEAN }
             \cup { Cfg(1, 1, <<D(2)>>, "trunc", "none", TRUE, TRUE, ac, ~ac, FALSE, 1) : ac \in BOOLEAN }
